@@ -12,6 +12,7 @@ import (
 
 	"github.com/dgraph-io/badger"
 	res "github.com/jirenius/go-res"
+	"github.com/jirenius/go-res/logger"
 	"github.com/jirenius/go-res/store"
 	"github.com/jirenius/go-res/store/badgerstore"
 	"github.com/jirenius/go-res/store/mockstore"
@@ -261,13 +262,34 @@ func newC10World(cfg c10cfg) (*c10world, error) {
 		w.clean = func() {}
 	}
 	s := res.NewService("test")
-	s.SetLogger(nil)
+	// (a nil logger would make the store handler's own error paths panic in Logger().Errorf)
+	s.SetLogger(logger.NewMemLogger())
 	s.SetWorkerCount(1)
 	sh := store.Handler{Store: w.st}
 	pattern := "r.$id"
 	switch cfg.trans {
 	case "id":
 		sh.Transformer = store.IDTransformer("id", nil)
+	case "failing":
+		// values marked as retired are hidden: Transform fails with the not-found error
+		sh.Transformer = store.TransformFuncs(
+			func(rid string, pp map[string]string) string { return pp["id"] },
+			func(id string, v interface{}, p res.Pattern) string { return string(p.ReplaceTag("id", id)) },
+			func(id string, v interface{}) (interface{}, error) {
+				switch x := v.(type) {
+				case map[string]interface{}:
+					if _, ok := x["hidden"]; ok {
+						return nil, store.ErrNotFound
+					}
+				case []interface{}:
+					for _, e := range x {
+						if e == "hidden" {
+							return nil, store.ErrNotFound
+						}
+					}
+				}
+				return v, nil
+			})
 	case "custom":
 		// external id differs from the store id and the value is wrapped/renamed
 		sh.Transformer = store.TransformFuncs(
@@ -331,7 +353,7 @@ func (w *c10world) close() { w.h.close(); w.clean() }
 
 func (w *c10world) storeID(id string) string {
 	switch w.cfg.trans {
-	case "id":
+	case "id", "failing":
 		return id
 	case "custom":
 		return "k-" + id
@@ -468,7 +490,7 @@ func RunC10(c *core.Ctx) {
 	// (2) histories over every configuration
 	var cfgs []c10cfg
 	for _, typ := range []string{"model", "collection"} {
-		for _, tr := range []string{"none", "id", "custom"} {
+		for _, tr := range []string{"none", "id", "custom", "failing"} {
 			for _, def := range []bool{false, true} {
 				for _, be := range []string{"mock", "badger"} {
 					cfgs = append(cfgs, c10cfg{typ, tr, def, be})
